@@ -554,6 +554,10 @@ func ruleAppliedOffsetProvenance(h *H, rule string) {
 					if ir.SameExpr(a, r.Base) {
 						passesEntry = true
 					}
+					// the apply helper inlined: ProcessWrite gets the entry's own offset
+					if ar, isF := ir.FieldLoadOf(ir.Canon(a)); isF && ar.Is("proto", "LogEntry", "Offset") && ir.SameExpr(ar.Base, r.Base) {
+						passesEntry = true
+					}
 				}
 				if !passesEntry {
 					return
@@ -562,6 +566,16 @@ func ruleAppliedOffsetProvenance(h *H, rule string) {
 					ok = true
 				} else {
 					why = w2
+					// the apply call sits in an inner loop over the entry's requests (zero or more
+					// iterations): the store must not be reachable after a failed apply
+					if hi := ir.EnclosingLoopHeader(in.Block()); hi != nil && ir.ErrResult(ci) != nil && !ir.LoopBlocks(hi)[w.Instr.Block()] && hi.Dominates(w.Instr.Block()) {
+						ev := ir.ErrResult(ci)
+						if r, _ := ir.Reach(ir.Search{From: in}, ir.Is(w.Instr)); r {
+							if okOnly, _ := ir.OkOnly(w.Fn, ev, in, w.Instr); okOnly {
+								ok = true
+							}
+						}
+					}
 				}
 			})
 			h.Verdict(ok, rule, name, h.pos(w.Instr), "offset of the entry that was just applied successfully", why)
